@@ -50,6 +50,10 @@ Val(n) == CASE n = "i1" -> Sc("int", 10000) [] n = "i2" -> Sc("int", 20000) [] n
             [] n = "Brepr" -> Sc("obj", 0)
             \* an object with an attribute named `value` holding 0: equal to nothing but itself, truthy - not its value
             [] n = "Vobj" -> Sc("obj", 1)
+            \* instances of one dataclass with two fields: equal field by field (with the documented tolerance), unordered
+            [] n = "DC12" -> V("dc", 0, "-", "-", <<Sc("int", 10000), Sc("int", 20000)>>)
+            [] n = "DC13" -> V("dc", 0, "-", "-", <<Sc("int", 10000), Sc("int", 30000)>>)
+            [] n = "DC12c" -> V("dc", 0, "-", "-", <<Sc("int", 10000), Sc("float", 20005)>>)
             [] n = "T123" -> V("tuple", 0, "-", "-", <<Sc("int", 10000), Sc("int", 20000), Sc("int", 30000)>>)
             [] n = "L1a" -> V("list", 0, "-", "-", <<Sc("int", 10000), St("abc", "plain")>>)
             [] n = "T1a" -> V("tuple", 0, "-", "-", <<Sc("int", 10000), St("abc", "plain")>>)
@@ -65,7 +69,7 @@ PyEq(l, r) == IF l.k = "nan" \/ r.k = "nan" THEN FALSE
                         /\ (\A j \in 1..Len(r.e) : \E i \in 1..Len(l.e) : PyEq(l.e[i], r.e[j]))
               ELSE IF Numeric(l) /\ Numeric(r) THEN l.x = r.x
               ELSE IF l.k = "str" /\ r.k = "str" THEN l.core = r.core /\ l.deco = r.deco
-              ELSE IF l.k = r.k /\ l.k \in {"list", "tuple"}
+              ELSE IF l.k = r.k /\ l.k \in {"list", "tuple", "dc"}
                    THEN Len(l.e) = Len(r.e) /\ \A i \in 1..Len(l.e) : PyEq(l.e[i], r.e[i])
               ELSE IF l.k = "dict" /\ r.k = "dict" THEN l.core = r.core /\ l.deco = r.deco /\ l.x = r.x
               ELSE l.k = "none" /\ r.k = "none"
@@ -87,7 +91,7 @@ Eq(l, r) == IF l.k = "nan" \/ r.k = "nan" THEN FALSE
             ELSE IF Numeric(l) /\ Numeric(r)
             THEN (IF "float" \in {l.k, r.k} THEN Abs(l.x - r.x) < Delta ELSE l.x = r.x)
             ELSE IF l.k = "str" /\ r.k = "str" THEN l.core = r.core
-            ELSE IF l.k = r.k /\ l.k \in {"list", "tuple"}
+            ELSE IF l.k = r.k /\ l.k \in {"list", "tuple", "dc"}
                  THEN Len(l.e) = Len(r.e) /\ \A i \in 1..Len(l.e) : Eq(l.e[i], r.e[i])
             ELSE PyEq(l, r)
 \* the pinned code applied the tolerance only when the EXPECTED (right) operand is a float
@@ -96,7 +100,7 @@ EqExpectedOnly(l, r) == IF l.k \in {"nan", "set"} \/ r.k \in {"nan", "set"} THEN
             ELSE IF Numeric(l) /\ Numeric(r)
             THEN (IF r.k = "float" THEN Abs(l.x - r.x) < Delta ELSE l.x = r.x)
             ELSE IF l.k = "str" /\ r.k = "str" THEN l.core = r.core
-            ELSE IF l.k = r.k /\ l.k \in {"list", "tuple"}
+            ELSE IF l.k = r.k /\ l.k \in {"list", "tuple", "dc"}
                  THEN Len(l.e) = Len(r.e) /\ \A i \in 1..Len(l.e) : EqExpectedOnly(l.e[i], r.e[i])
             ELSE PyEq(l, r)
 EqUsed(l, r) == IF "tolerance_expected_only" \in Flags THEN EqExpectedOnly(l, r) ELSE Eq(l, r)
@@ -121,7 +125,7 @@ Ord(l, r) == IF (l.k = "nan" /\ (Numeric(r) \/ r.k = "nan")) \/ (r.k = "nan" /\ 
 SeqOrd(l, r, i) == IF i > Len(l.e) /\ i > Len(r.e) THEN "eq" ELSE IF i > Len(l.e) THEN "lt" ELSE IF i > Len(r.e) THEN "gt"
                    ELSE IF ~PyEq(l.e[i], r.e[i]) THEN Ord(l.e[i], r.e[i]) ELSE SeqOrd(l, r, i + 1)
 Truthy(v) == CASE v.k = "nan" -> TRUE [] v.k = "set" -> v.e # <<>> [] Numeric(v) -> v.x # 0 [] v.k = "str" -> v.core # "" [] v.k \in {"list", "tuple"} -> v.e # <<>>
-               [] v.k \in {"dict", "obj"} -> TRUE
+               [] v.k \in {"dict", "obj", "dc"} -> TRUE
                [] OTHER -> FALSE
 HasLen(v) == v.k \in {"str", "list", "tuple", "dict", "set"}
 LenOf(v) == IF v.k = "dict" THEN 1 ELSE IF v.k = "str" THEN (IF v.core = "" THEN 0 ELSE 3 + (IF v.deco = "punct" THEN 1 ELSE 0)) ELSE Len(v.e)
@@ -130,11 +134,11 @@ SubStr(n, h) == \/ n.core = "" \/ (n.core = h.core /\ n.deco = h.deco) \/ (n.cor
 B(x) == IF x THEN "T" ELSE "F"
 Neg(t) == IF t = "T" THEN "F" ELSE IF t = "F" THEN "T" ELSE t
 \* (a set needle is looked up as a frozenset by set.__contains__, so `{1} in {1}` is simply False, not an error)
-In(l, r) == IF r.k = "set" THEN (IF l.k \in {"list", "dict"} THEN "U" ELSE IF l.k = "set" THEN "F"
+In(l, r) == IF r.k = "set" THEN (IF l.k \in {"list", "dict", "dc"} THEN "U"          \* (a dataclass with eq=True is unhashable) ELSE IF l.k = "set" THEN "F"
                                  ELSE B(\E i \in 1..Len(r.e) : PyEq(l, r.e[i])))
             ELSE IF r.k \in {"list", "tuple"} THEN B(\E i \in 1..Len(r.e) : PyEq(l, r.e[i]))
             ELSE IF r.k = "str" THEN (IF l.k = "str" THEN B(SubStr(l, r)) ELSE "U")
-            ELSE IF r.k = "dict" THEN (IF l.k \in {"list", "dict", "set"} THEN "U"      \* unhashable needle
+            ELSE IF r.k = "dict" THEN (IF l.k \in {"list", "dict", "set", "dc"} THEN "U"      \* unhashable needle
                                        ELSE B(l.k = "str" /\ l.core = r.core /\ l.deco = r.deco))
             ELSE "U"
 Cmp(l, r, ok) == IF Ord(l, r) = "U" THEN "U" ELSE B(Ord(l, r) \in ok)
